@@ -6,7 +6,7 @@
 set -u
 P=$1; K=$2
 SRC=${BENROOT:-/tmp/ben}/$P/out/$K
-ID=$P-$K
+ID=$P-${BENTAG:-}$K
 WT=/tmp/vb/$ID
 export PATH=/opt/veriftools/go1.26.8/bin:$PATH GOFLAGS=-mod=mod GOPROXY=off GOSUMDB=off GOTOOLCHAIN=local GOWORK=off
 [ -f $SRC/patch.diff ] || { echo "$ID: no patch"; exit 2; }
